@@ -146,7 +146,7 @@ def mutate(r, u):
 # ---------------------------------------------------------------- systematic families
 def utf8_patterns():
     """every lead byte 80..FF x second/third/fourth byte from range-boundary palettes"""
-    second = [None, 0x2f, 0x61, 0x7f, 0x80, 0x8f, 0x90, 0x9f, 0xa0, 0xbf, 0xc0, 0xff]
+    second = [None, 0x2f, 0x61, 0x7f, 0x80, 0x8f, 0x90, 0x9f, 0xa0, 0xaf, 0xb0, 0xbf, 0xc0, 0xff]
     third = [None, 0x7f, 0x80, 0xbf, 0xc0]
     fourth = [None, 0x7f, 0x80, 0xbf, 0xc0]
     out = []
@@ -284,8 +284,11 @@ def gen_cases(tier, seed, schemes, inline, hostmax):
     pats = utf8_patterns()
     step = 7 if quick else 1
     off = seed % step
+    # lead bytes at which the validity of the second byte changes (overlong / surrogate / out-of-range boundaries) are never
+    # thinned out in the quick tier (seeded fault C19-7A: low surrogates ED B0..BF accepted, missed by the 1-in-7 sample)
+    critical = {0x80, 0xbf, 0xc0, 0xc1, 0xc2, 0xdf, 0xe0, 0xe1, 0xec, 0xed, 0xee, 0xef, 0xf0, 0xf1, 0xf3, 0xf4, 0xf5, 0xf7, 0xf8, 0xff}
     for j, p in enumerate(pats):
-        if j % step != off:
+        if j % step != off and not (p[0] in critical and len(p) <= 3):
             continue
         r = core.Rng(seed, PROP, tier, "utf8", j)
         pre = r.choice([b"", b"a", b"/", b"x/", b"\xc3\xa9"])
